@@ -79,6 +79,33 @@ var files = []genFile{
 		},
 	},
 	{
+		Name: "Trigger",
+		Funcs: []*FuncSpec{
+			{
+				File: "src/app/project_runner.go", Recv: "ProjectRunner", Name: "onProcessEnd",
+				LeanName: "triggerOnEnd",
+				LeanSig:  "(exitCode : Int) (restart : String) (exitOnEnd : Bool) : Option Int",
+				Subst: map[string]string{
+					"procConf.RestartPolicy.Restart":   "restart",
+					"procConf.RestartPolicy.ExitOnEnd": "(exitOnEnd = true)",
+				},
+				Consts: map[string][2]string{"types.RestartPolicyExitOnFailure": {"src/types/process.go", "RestartPolicyExitOnFailure"}},
+				Ignore: []string{"p.exitCodeOnce.Do(", "verif."},
+				Calls:  map[string]string{"_ = p.ShutDownProject()": "some exitCode"},
+				Final:  "none",
+			},
+			{
+				File: "src/app/project_runner.go", Recv: "ProjectRunner", Name: "onProcessSkipped",
+				LeanName: "triggerOnSkipped",
+				LeanSig:  "(exitOnSkipped : Bool) : Option Int",
+				Subst:    map[string]string{"procConf.RestartPolicy.ExitOnSkipped": "(exitOnSkipped = true)"},
+				Ignore:   []string{"p.exitCodeOnce.Do(", "verif."},
+				Calls:    map[string]string{"_ = p.ShutDownProject()": "some 1"},
+				Final:    "none",
+			},
+		},
+	},
+	{
 		Name: "Probe", Imports: []string{"PC.Go.Atoi", "PC.Model.ProbeTypes"}, Opens: []string{"PC.Go", "PC.Probe"},
 		Funcs: []*FuncSpec{
 			{
@@ -225,7 +252,7 @@ func main() {
 	for _, o := range old {
 		keep := false
 		for _, gf := range files {
-			if filepath.Base(o) == gf.Name+".lean" || filepath.Base(o) == "Facts.lean" || filepath.Base(o) == "Api.lean" || filepath.Base(o) == "Locks.lean" {
+			if filepath.Base(o) == gf.Name+".lean" || filepath.Base(o) == "Facts.lean" || filepath.Base(o) == "Api.lean" || filepath.Base(o) == "Locks.lean" || filepath.Base(o) == "Trigger.lean" {
 				keep = true
 			}
 		}
